@@ -98,9 +98,18 @@ fn site_of(loc: &'static Location<'static>) -> String {
     format!("{}:{}", short, loc.line())
 }
 
+/// certain self-deadlocks seen by the monitor (a thread blocking on a non-reentrant lock it holds
+/// itself in a conflicting mode): parking_lot's detector does not report a one-thread cycle
+static SELF_DEADLOCKS: Mutex<Vec<String>> = Mutex::new(Vec::new());
+
+pub fn take_self_deadlocks() -> Vec<String> {
+    std::mem::take(&mut *SELF_DEADLOCKS.lock().unwrap())
+}
+
 fn hook_before(addr: usize, mode: u8, blocking: bool, loc: &'static Location<'static>) {
     let mut pause_for: Option<(usize, u64)> = None;
     let mut jitter = false;
+    let mut self_deadlock: Option<String> = None;
     let r = TS.try_with(|ts| {
         let mut b = ts.borrow_mut();
         let Some(t) = b.as_mut() else { return };
@@ -109,6 +118,14 @@ fn hook_before(addr: usize, mode: u8, blocking: bool, loc: &'static Location<'st
         let mut g = global().lock().unwrap();
         g.lock_events += 1;
         for h in &t.held {
+            if h.addr == addr && blocking {
+                let exclusive_held = h.mode == WRITE || h.mode == MUTEX;
+                let wants_exclusive = mode == WRITE || mode == MUTEX;
+                let shared_held = h.mode == READ || h.mode == UPGRADABLE;
+                if (exclusive_held && mode != UPGRADE) || (shared_held && wants_exclusive) {
+                    self_deadlock = Some(format!("self-deadlock: {} while holding {} of the same lock ({} -> {}) in {}", mode_name(mode), mode_name(h.mode), h.site, site, t.label));
+                }
+            }
             if h.addr != addr {
                 g.edges.entry((h.addr, addr)).or_insert_with(|| Edge {
                     from_site: h.site.clone(),
@@ -147,6 +164,12 @@ fn hook_before(addr: usize, mode: u8, blocking: bool, loc: &'static Location<'st
         }
     });
     let _ = r;
+    if let Some(d) = self_deadlock {
+        // the thread would block forever; record the witness and unwind instead (guards are released
+        // by the unwinding, so the other threads of the run can finish)
+        SELF_DEADLOCKS.lock().unwrap().push(d.clone());
+        panic!("{}", d);
+    }
     if let Some((me, max_ms)) = pause_for {
         PAUSES_TAKEN.fetch_add(1, Ordering::Relaxed);
         // while paused this thread is not "waiting for a lock"
@@ -466,6 +489,10 @@ pub fn run_threads(labels: &[String], bodies: Vec<Box<dyn FnOnce() + Send + 'sta
             break;
         }
         std::thread::sleep(Duration::from_micros(200));
+    }
+    let selfd = take_self_deadlocks();
+    if deadlock.is_none() && !selfd.is_empty() {
+        deadlock = Some(selfd.into_iter().map(|d| vec![d]).collect());
     }
     let completed = finished.load(Ordering::SeqCst) == n;
     if completed {
